@@ -779,11 +779,18 @@ def gen_tree(rng, depth, exc, raise_depth):
     return build(0, exc is not None)
 
 
-def error_scenario(ctx, rng, idx):
+def scenario_rng(ctx, kind, idx):
+    import random
+    random.seed(f'{ctx.seed}-{kind}-{idx}-global')   # ServerBase.assign_tasks draws from the global generator
+    return random.Random(f'{ctx.seed}-{kind}-{idx}')
+
+
+def error_scenario(ctx, idx):
     """two clients submit a task tree each through the real Compiler; in one of them a task at depth d raises.
     Expect: that client's result() raises RuntimeError carrying the message and drops its connection; the other
     client gets the value of its own tree; no node of the runtime goes down."""
     from bqskit.ir.circuit import Circuit
+    rng = scenario_rng(ctx, 'err', idx)
     nm = rng.choice([0, 0, 1, 2])
     wp = rng.randint(1, 3)
     net = Net(rng, nm, wp)
@@ -836,12 +843,13 @@ def error_scenario(ctx, rng, idx):
     return True
 
 
-def client_scenario(ctx, rng, idx, avoid_d4=False):
+def client_scenario(ctx, idx, avoid_d4=False):
     """random API calls of 1-3 real Compiler objects on the in-process runtime (flat, one worker) whose tasks are
     trivial trees; return values / exceptions checked against the python specification; the event history seen
     by the server is recorded and replayed through the co-simulation."""
     from bqskit.ir.circuit import Circuit
     from bqskit.compiler.status import CompilationStatus
+    rng = scenario_rng(ctx, 'client', idx)
     net = Net(rng, 0, 1)
     nc = rng.randint(1, 3)
     comps, ends = [], []
@@ -944,7 +952,7 @@ def client_scenario(ctx, rng, idx, avoid_d4=False):
             net.run()
             if ends[i].inbox:
                 extra = [(int(m), str(p)) for m, p in ends[i].inbox]
-                ctx.violation(dict(SIG_FSTATUS), dict(kind='client-api', log=[list(map(str, l)) for l in log], seed_index=idx),
+                ctx.violation(dict(SIG_FSTATUS), dict(kind='client-api', log=[list(map(str, l)) for l in log], seed_index=idx, avoid_d4=avoid_d4),
                               'one STATUS answer (UNKNOWN)', dict(got=got, further_messages_in_the_pipe=extra),
                               f'Compiler.status on another client\'s open task: answered UNKNOWN and then again {extra}; the next '
                               'call of this client reads the stale answer or raises "Unexpected message type"')
@@ -967,7 +975,7 @@ def client_scenario(ctx, rng, idx, avoid_d4=False):
                 sig = dict(SIG_FCANCEL)      # the CANCEL acknowledgement of another client's cancel()
             else:
                 sig = {'call': 'Compiler.' + op, 'id_state': idstate, 'symptom': 'crash' if crashed else 'wrong-answer'}
-            ctx.violation(sig, dict(kind='client-api', log=[list(map(str, l)) for l in log], seed_index=idx), exp,
+            ctx.violation(sig, dict(kind='client-api', log=[list(map(str, l)) for l in log], seed_index=idx, avoid_d4=avoid_d4), exp,
                           dict(got=got, crashed=net.crashed),
                           f'Compiler.{op} on a task id in state {idstate}: expected {exp}, got {got}'
                           + (f'; runtime node down: {net.crashed[:2]}' if crashed else ''))
@@ -977,7 +985,7 @@ def client_scenario(ctx, rng, idx, avoid_d4=False):
     net.run()
     net.close()
     if net.crashed is not None:
-        ctx.violation({'call': 'runtime-node', 'symptom': 'crash-at-quiescence'}, dict(kind='client-api', log=[list(map(str, l)) for l in log], seed_index=idx),
+        ctx.violation({'call': 'runtime-node', 'symptom': 'crash-at-quiescence'}, dict(kind='client-api', log=[list(map(str, l)) for l in log], seed_index=idx, avoid_d4=avoid_d4),
                       'no node goes down', dict(crashed=net.crashed), f'runtime node down: {net.crashed[:2]}')
         return False
     ctx.case(('client', idx), nontrivial=len(tids) > 0)
@@ -1239,7 +1247,9 @@ def spec_cross_check(ctx, hists):
 
 def run(ctx: vf.Ctx):
     ctx.uses_translators = set()
+    t_b = __import__('time').time()
     ctx.build(**BUILD)
+    ctx.cov['t_build_incl_lock_wait_s'] = round(__import__('time').time() - t_b, 1)
     ctx.rule = ('request histories on a real DetachedServer (handle_message) vs the extracted Coq model, answers + '
                 'canonical tables compared after every event; random histories of length <=30 with 1-3 (up to 6 '
                 'successive) clients, ids own/foreign/unknown in every state, RESULT/ERROR/LOG from below interleaved; '
@@ -1293,18 +1303,34 @@ def run(ctx: vf.Ctx):
     import warnings
     warnings.simplefilter('ignore', RuntimeWarning)
     logging.getLogger('bqskit').setLevel(logging.CRITICAL)
+    t_sc = __import__('time').time()
     with det_uuids():
-        n_ok = sum(error_scenario(ctx, rng, i) for i in range(ctx.n(120, 1500)))
+        n_ok = sum(error_scenario(ctx, i) for i in range(ctx.n(120, 1500)))
         ctx.cov['error_forwarding_scenarios_ok'] = n_ok
-        n_ok = sum(client_scenario(ctx, rng, i, avoid_d4=(mode == 'current' and i % 2 == 0)) for i in range(ctx.n(200, 3000)))
+        n_ok = sum(client_scenario(ctx, i, avoid_d4=(mode == 'current' and i % 2 == 0)) for i in range(ctx.n(200, 3000)))
         ctx.cov['client_api_scenarios_ok'] = n_ok
+    ctx.cov['t_scenarios_s'] = round(__import__('time').time() - t_sc, 1)
 
 
 def replay(ctx: vf.Ctx, data):
+    import logging
+    import warnings
+    warnings.simplefilter('ignore', RuntimeWarning)
+    logging.getLogger('bqskit').setLevel(logging.CRITICAL)
     case = data.get('case') or {}
-    hist = case.get('history')
-    if not hist:
-        ctx.broken_obligation('replay: no history in the replay file', json.dumps(data)[:500])
-        return
+    ctx.seed = data.get('seed', ctx.seed)
     mode = detect_mode(ctx)
-    run_batch(ctx, [hist], mode, 'replay')
+    ctx.cov['impl_mode'] = mode
+    kind = case.get('kind')
+    if kind == 'error-forwarding':
+        with det_uuids():
+            error_scenario(ctx, case['seed_index'])
+    elif kind == 'client-api':
+        with det_uuids():
+            client_scenario(ctx, case['seed_index'], avoid_d4=case.get('avoid_d4', False))
+    elif kind == 'run-loop':
+        run_loop_witness(ctx, mode)
+    elif case.get('history'):
+        run_batch(ctx, [case['history']], mode, 'replay')
+    else:
+        ctx.broken_obligation('replay: unknown case kind in the replay file', json.dumps(data)[:500])
